@@ -424,4 +424,150 @@ Proof.
   intros Hdis E Hok k Hk Hc. unfold ts_stepTo in E.
   destruct (loop_good Hdis _ _ _ _ _ _ _ _ _ _ _ E Hok ltac:(intros ? []) k Hk) as [_ G]. apply G; auto.
 Qed.
+
+(** ------------------------------------------------------------------------------------------ time order of the calls *)
+Definition is_hcall (k:call S) : bool := match k_cause k with CScheduled | CTriggered => true | _ => false end.
+Definition is_rcall (k:call S) : bool := match k_cause k with CReport => true | _ => false end.
+Fixpoint nondecr (l:list Q) : Prop := match l with [] => True | x :: r => (forall y, In y r -> x <= y) /\ nondecr r end.
+Definition htimes (log:list (call S)) : list Q := map (@k_time S) (filter is_hcall log).
+Definition rtimes (log:list (call S)) : list Q := map (@k_time S) (filter is_rcall log).
+
+Lemma nondecr_app l1 l2 : nondecr l1 -> nondecr l2 -> (forall x y, In x l1 -> In y l2 -> x <= y) -> nondecr (l1 ++ l2).
+Proof.
+  induction l1 as [|a r IH]; simpl; intros H1 H2 H; auto. destruct H1 as [Ha Hr]. split.
+  - intros y Hy. apply in_app_iff in Hy. destruct Hy; auto.
+  - apply IH; auto.
+Qed.
+Lemma nondecr_const (l:list Q) c : (forall x, In x l -> x = c) -> nondecr l.
+Proof.
+  induction l as [|a r IH]; simpl; intros H; auto. split.
+  - intros y Hy. rewrite (H a), (H y); auto. lra.
+  - apply IH. intros; apply H; auto.
+Qed.
+
+(** all handler calls of one dispatch happen at the advanced time, all reporter calls at the returned time *)
+Lemma body_times time s u l s2 stop : BODY time s u = (l, s2, stop) ->
+  (forall k, In k l -> is_hcall k = true -> k_time k = a_tadv (u_ans u)) /\
+  (forall k, In k l -> is_rcall k = true -> k_time k = a_t (u_ans u) \/ k_time k = a_tadv (u_ans u) /\ a_status (u_ans u) = ReachedScheduledEvent) /\
+  ts_tadv s2 = a_tadv (u_ans u) /\ (ts_t s2 = a_t (u_ans u) \/ ts_t s2 = a_tadv (u_ans u)).
+Proof.
+  unfold ts_body. set (a := u_ans u). intros E.
+  destruct (a_status a) eqn:St.
+  - inversion E; subst; clear E. split; [|split; [|split]].
+    + intros k Hk Hh. destruct (ile (u_nextRep u) (Some (a_t a))); [|destruct Hk].
+      simpl in Hk. rewrite app_nil_r in Hk. apply run_reporters_log in Hk. destruct Hk as [A _]. unfold is_hcall in Hh. rewrite A in Hh. discriminate.
+    + intros k Hk _. destruct (ile (u_nextRep u) (Some (a_t a))); [|destruct Hk].
+      simpl in Hk. rewrite app_nil_r in Hk. apply run_reporters_log in Hk. left. tauto.
+    + destruct (ile (u_nextRep u) (Some (a_t a))); reflexivity.
+    + destruct (ile (u_nextRep u) (Some (a_t a))); left; reflexivity.
+  - destruct (run_handlers S th_id th_act CTriggered thandlers (a_ids a) (a_tadv a) _) as [[[p' tm] lw] l'] eqn:E2.
+    inversion E; subst; clear E. split; [|split; [|split]].
+    + intros k Hk _. destruct (run_handlers_log _ _ _ _ _ _ _ _ _ _ _ E2 k Hk) as [_ [B _]]. auto.
+    + intros k Hk Hr. destruct (run_handlers_log _ _ _ _ _ _ _ _ _ _ _ E2 k Hk) as [A _]. unfold is_rcall in Hr. rewrite A in Hr. discriminate.
+    + reflexivity.
+    + simpl. destruct lw; auto.
+  - destruct (handle_scheduled S subs (u_evids u) (a_tadv a) _) as [[[p' tm] lw] l'] eqn:E2.
+    inversion E; subst; clear E. simpl in E2.
+    destruct (run_handlers S h_id h_act CScheduled (ss_handlers ss) (u_evids u) (a_tadv a) _) as [[[p1 tm1] lw1] l1] eqn:E3.
+    inversion E2; subst; clear E2. split; [|split; [|split]].
+    + intros k Hk _. rewrite app_nil_r in Hk. apply in_app_iff in Hk. destruct Hk as [Hk|Hk].
+      * destruct (run_handlers_log _ _ _ _ _ _ _ _ _ _ _ E3 k Hk) as [_ [B _]]. auto.
+      * apply run_reporters_log in Hk. tauto.
+    + intros k Hk _. rewrite app_nil_r in Hk. apply in_app_iff in Hk. right. split; auto. destruct Hk as [Hk|Hk].
+      * destruct (run_handlers_log _ _ _ _ _ _ _ _ _ _ _ E3 k Hk) as [_ [B _]]. auto.
+      * apply run_reporters_log in Hk. tauto.
+    + reflexivity.
+    + simpl. destruct (lw1 || false); auto.
+  - inversion E; subst; clear E. split; [|split; [|split]]; try (intros k []); simpl; auto.
+  - inversion E; subst; clear E. split; [|split; [|split]]; try (intros k []); simpl; auto.
+  - inversion E; subst; clear E. split; [|split; [|split]]; try (intros k []); simpl; auto.
+  - inversion E; subst; clear E. split; [|split; [|split]]; try (intros k []); simpl; auto.
+Qed.
+
+Definition order_inv (log:list (call S)) (s:tstate S) : Prop :=
+  nondecr (htimes log) /\ (forall t, In t (htimes log) -> t <= ts_tadv s) /\
+  nondecr (rtimes log) /\ (forall t, In t (rtimes log) -> t <= ts_t s) /\ ts_t s <= ts_tadv s.
+
+Lemma htimes_app l1 l2 : htimes (l1 ++ l2) = htimes l1 ++ htimes l2.
+Proof. unfold htimes. rewrite filter_app, map_app. reflexivity. Qed.
+Lemma rtimes_app l1 l2 : rtimes (l1 ++ l2) = rtimes l1 ++ rtimes l2.
+Proof. unfold rtimes. rewrite filter_app, map_app. reflexivity. Qed.
+
+Lemma body_order time s a l s2 stop log : ids_disjoint ->
+  let u := MKUSE time s a in
+  BODY time s u = (l, s2, stop) -> use_ok u -> order_inv log s -> order_inv (log ++ l) s2.
+Proof.
+  intros Hdis u E Hok [I1 [I2 [I3 [I4 I5]]]].
+  destruct (mk_use_fields time s a) as [F1 [F2 [F3 _]]]. fold u in F1, F2, F3.
+  destruct (body_times _ _ _ _ _ _ E) as [T1 [T2 [T3 T4]]]. rewrite F3 in *.
+  destruct Hok as [O1 [O2 [O3 [O4 _]]]]. rewrite F1, F2, F3 in *.
+  assert (Hh: forall t, In t (htimes l) -> t = a_tadv a).
+  { intros t Ht. unfold htimes in Ht. apply in_map_iff in Ht. destruct Ht as [k [<- Hk]]. apply filter_In in Hk. apply T1; tauto. }
+  assert (Hr: forall t, In t (rtimes l) -> t == a_t a).
+  { intros t Ht. unfold rtimes in Ht. apply in_map_iff in Ht. destruct Ht as [k [<- Hk]]. apply filter_In in Hk.
+    destruct (T2 k (proj1 Hk) (proj2 Hk)) as [X|[X Y]]; rewrite X; [reflexivity|]. destruct (O4 Y) as [_ [P _]]. exact P. }
+  unfold order_inv. rewrite htimes_app, rtimes_app, T3. repeat split.
+  - apply nondecr_app; auto.
+    + apply nondecr_const with (c := a_tadv a); auto.
+    + intros x y Hx Hy. rewrite (Hh y Hy). specialize (I2 x Hx). lra.
+  - intros t Ht. apply in_app_iff in Ht. destruct Ht as [Ht|Ht].
+    + specialize (I2 t Ht). lra.
+    + rewrite (Hh t Ht). lra.
+  - apply nondecr_app; auto.
+    + clear -Hr. induction (rtimes l) as [|x r IH]; simpl; auto. split.
+      * intros y Hy. rewrite (Hr x), (Hr y); simpl; auto. lra.
+      * apply IH. intros; apply Hr; simpl; auto.
+    + intros x y Hx Hy. rewrite (Hr y Hy). specialize (I4 x Hx). lra.
+  - intros t Ht. apply in_app_iff in Ht. destruct Ht as [Ht|Ht].
+    + specialize (I4 t Ht). destruct T4 as [->| ->]; lra.
+    + rewrite (Hr t Ht). destruct T4 as [->| ->]; lra.
+  - destruct T4 as [->| ->]; lra.
+Qed.
+
+Lemma loop_order : ids_disjoint -> forall orc reportAll time s log uses st s' rest log' uses',
+  LOOP reportAll time s orc log uses = TSRet S st s' rest log' uses' ->
+  (forall u, In u uses' -> use_ok u) -> order_inv log s -> order_inv log' s'.
+Proof.
+  intros Hdis. induction orc as [|a orc IH]; intros reportAll time s log uses st s' rest log' uses' E Hok Hi; simpl in E.
+  - destruct (ts_over s); inversion E; subst; auto.
+  - destruct (ts_over s); [inversion E; subst; auto|].
+    destruct (BODY time s (MKUSE time s a)) as [[l s2] stop] eqn:Eb.
+    destruct (stop || reportAll).
+    + inversion E; subst. eapply body_order; eauto. apply Hok. apply in_app_iff; right; left; auto.
+    + pose proof (loop_uses_mono _ _ _ _ _ _ _ _ _ _ _ E) as Hm.
+      apply (IH _ _ _ _ _ _ _ _ _ _ E Hok). eapply body_order; eauto. apply Hok. apply Hm. apply in_app_iff; right; left; auto.
+Qed.
+
+(** MAIN (time order): within one TimeStepper::stepTo the calls of state-changing handlers (scheduled and triggered) are
+    made at nondecreasing times, and so are the calls of scheduled reporters *)
+Lemma handlers_in_time_order reportAll time s orc st s' rest log uses : ids_disjoint -> ts_t s <= ts_tadv s ->
+  ts_stepTo S cf subs thandlers flow reportAll time s orc = TSRet S st s' rest log uses ->
+  (forall u, In u uses -> use_ok u) ->
+  nondecr (htimes log) /\ nondecr (rtimes log).
+Proof.
+  intros Hdis H0 E Hok. unfold ts_stepTo in E.
+  assert (I0: order_inv [] s). { unfold order_inv, htimes, rtimes. simpl. repeat split; auto; intros t []. }
+  destruct (loop_order Hdis _ _ _ _ _ _ _ _ _ _ _ E Hok I0) as [A [_ [B _]]]. auto.
+Qed.
+
+(** a periodic handler is only ever called at exact multiples of its interval *)
+Lemma periodic_handler_called_at_multiples reportAll time s orc st s' rest log uses interval : ids_disjoint ->
+  0 < interval ->
+  ts_stepTo S cf subs thandlers flow reportAll time s orc = TSRet S st s' rest log uses ->
+  (forall u, In u uses -> use_ok u) ->
+  forall k h, In k log -> k_cause k = CScheduled -> In h (ss_handlers ss) -> h_id h = k_id k ->
+  NoDup (map (@h_id S) (ss_handlers ss)) ->
+  (forall t incl, h_next h t incl = Some (periodic_next interval t incl)) ->
+  exists z:Z, k_time k == inject_Z z * interval.
+Proof.
+  intros Hdis Hi E Hok k h Hk Hc Hh Hid Hnd Hper.
+  destruct (scheduled_called_exactly_at_time _ _ _ _ _ _ _ _ _ Hdis E Hok k Hk Hc) as [h' [u [A [B [C [D _]]]]]].
+  assert (h' = h).
+  { clear -A B Hh Hid Hnd. induction (ss_handlers ss) as [|x r IH]; [destruct A|]. simpl in Hnd. inversion Hnd; subst.
+    destruct A as [->|A], Hh as [->|Hh]; auto.
+    - exfalso. apply H1. rewrite B, <- Hid. apply in_map; auto.
+    - exfalso. apply H1. rewrite Hid, <- B. apply in_map; auto. }
+  subst h'. rewrite Hper in D. simpl in D.
+  destruct (periodic_next_spec interval (u_tcur u) (u_inclEv u) Hi) as [z [Ez _]]. exists z. rewrite <- D. exact Ez.
+Qed.
 End TSL.
